@@ -33,7 +33,7 @@ func init() {
 				return err
 			}
 			w.P("/-- %s `%s` -/", c.pos(pos), n)
-			w.P("def %s : List UInt8 := %s", n, leanBytes(bs))
+			w.P("def %s : List UInt8 := %s", n, leanByteListHS(bs))
 		}
 		// var FirstKeyUpdateInterval uint64 = 100
 		if v, pos, err := pkgVarInt(p, "FirstKeyUpdateInterval"); err != nil {
@@ -161,7 +161,7 @@ func kuLabels(p *Pkg, fd *ast.FuncDecl) (v1, v2 string, err error) {
 	return v1, v2, nil
 }
 
-func leanBytes(bs []byte) string {
+func leanByteListHS(bs []byte) string {
 	var sb strings.Builder
 	sb.WriteString("[")
 	for i, b := range bs {
